@@ -71,6 +71,11 @@ func runC01(c *eng.Ctx) {
 	ruleTruncateShapes(c)
 	c.Floor(8)
 
+	// ---- R01.13 error gates in the commit log package
+	c.Rule("R01.13", "K2")
+	ruleErrorGates(c, "server/commitlog")
+	c.Floor(20)
+
 }
 
 func ruleOffsetIdentity(c *eng.Ctx) {
